@@ -1065,7 +1065,17 @@ func (ro *RedisOutput) sendCmdsBatch(replayWait usync.WaitCloser, conn client.Re
 	lastDb := ro.startDbId
 
 	sendFuncOnce := func(shouldInTransaction, shouldUpdateCP bool, lastOffset int64) error {
+		// without resumeFromBreakPoint the position is not sent to the target but kept in memory,
+		// once the batch it covers has been sent
+		keepInMemory := false
+		if shouldUpdateCP && !ro.cfg.EnableResumeFromBreakPoint {
+			keepInMemory = lastOffset >= 0
+			shouldUpdateCP = false
+		}
 		if len(cmdQueue) == 0 && shouldInTransaction && !shouldUpdateCP {
+			if keepInMemory {
+				ro.keepPositionInMemory(lastOffset, lastDb)
+			}
 			return nil
 		}
 
@@ -1093,20 +1103,19 @@ func (ro *RedisOutput) sendCmdsBatch(replayWait usync.WaitCloser, conn client.Re
 			shouldUpdateCP = false
 		}
 		if shouldUpdateCP {
-			if ro.cfg.EnableResumeFromBreakPoint {
-				// the position is stored together with its run id and version : a record that
-				// holds an offset only (first write into this database, or a record stripped by
-				// the stale checkpoint GC) is an undefined start point that shadows the good ones
-				batcher.Put("hset", checkpointKv.Key, checkpointKv.RunIdKey(), runId, checkpointKv.VersionKey(), config.Version, checkpointKv.OffsetKey(), lastOffset)
-			} else {
-				ro.keepPositionInMemory(lastOffset, lastDb)
-			}
+			// the position is stored together with its run id and version : a record that
+			// holds an offset only (first write into this database, or a record stripped by
+			// the stale checkpoint GC) is an undefined start point that shadows the good ones
+			batcher.Put("hset", checkpointKv.Key, checkpointKv.RunIdKey(), runId, checkpointKv.VersionKey(), config.Version, checkpointKv.OffsetKey(), lastOffset)
 		}
 
 		if shouldInTransaction {
 			batcher.Put("exec")
 		}
 		if batcher.Len() == 0 {
+			if keepInMemory {
+				ro.keepPositionInMemory(lastOffset, lastDb)
+			}
 			return nil
 		}
 
@@ -1122,6 +1131,9 @@ func (ro *RedisOutput) sendCmdsBatch(replayWait usync.WaitCloser, conn client.Re
 			failCounter.Inc(ro.cfg.InputName)
 			batchSendCounter.Add(1, ro.cfg.InputName, transactionLabel, "error")
 			return err
+		}
+		if keepInMemory {
+			ro.keepPositionInMemory(lastOffset, lastDb)
 		}
 
 		sendOffsetGauge.Set(float64(lastOffset), ro.cfg.InputName)
@@ -1198,7 +1210,7 @@ func (ro *RedisOutput) sendCmdsBatch(replayWait usync.WaitCloser, conn client.Re
 	lastOffset := int64(-1)
 	for {
 		transactionBatch := transactionMode
-		shouldUpdateCP := ro.cfg.EnableResumeFromBreakPoint && transactionMode
+		shouldUpdateCP := transactionMode
 		select {
 		case item, ok := <-sendBuf:
 			if !ok {
